@@ -742,3 +742,53 @@ def rule_emitter_cap(ctx: Ctx) -> None:
                      f"counter keeps growing, the next draw can return {ne} or more, and the initial circuit emits a photon from an emitter register "
                      f"beyond the budget (CircuitDAG.add creates it silently, and it never gets a measure-and-reset)",
                      func="EvolutionarySolver.get_emission_assignment", construct=f"get_emission_assignment: {ctr} incremented without a cap")
+
+
+# --------------------------------------------------------------------------- order.emission-first
+
+
+def rule_emission_first(ctx: Ctx) -> None:
+    """order.emission-first: EvolutionarySolver.initialization appends operations to the circuit in time order.  A measure-and-reset of
+    emitter j puts a classically controlled X on photon measurement_assignment[j] — an arbitrary photon — so it may only be appended once
+    *every* photon has been emitted: no MeasurementCNOTandReset may be added inside (or by a helper called from inside) the loop that
+    adds the emission CNOTs."""
+    repo = ctx.repo
+    m = repo.module(EVO)
+    fn = repo.anchor(EVO, "EvolutionarySolver.initialization")
+    ctx.touch(m, fn)
+
+    def ctor_kind(c):
+        return (call_name(c) or "").split(".")[-1]
+
+    def builds(node, kind):
+        return any(isinstance(c, ast.Call) and ctor_kind(c) == kind for c in ast.walk(node))
+    local_fns = {f.name: f for f in ast.walk(fn) if isinstance(f, ast.FunctionDef) and f is not fn}
+    emit_loops = [l for l in fn.body if isinstance(l, ast.For) and any(
+        isinstance(c, ast.Call) and ctor_kind(c) == "CNOT" and (get_kw(c, "target_type") is not None and norm(get_kw(c, "target_type")) == "'p'")
+        for c in ast.walk(l))]
+    if len(emit_loops) != 1:
+        raise AnalysisError("initialization: the loop that adds the emission CNOTs was not found")
+    lp = emit_loops[0]
+    it_ok = isinstance(lp.iter, ast.Call) and call_name(lp.iter) == "range" and len(lp.iter.args) == 1
+    inside = []
+    for x in ast.walk(lp):
+        if isinstance(x, ast.Call) and ctor_kind(x) == "MeasurementCNOTandReset":
+            inside.append(x)
+        if isinstance(x, ast.Call) and isinstance(x.func, ast.Name) and x.func.id in local_fns and builds(local_fns[x.func.id], "MeasurementCNOTandReset"):
+            inside.append(x)
+        if isinstance(x, ast.Call) and isinstance(x.func, ast.Attribute) and norm(x.func.value) == "self":
+            cf = repo.try_anchor(EVO, f"EvolutionarySolver.{x.func.attr}")
+            if isinstance(cf, ast.FunctionDef) and cf is not fn and builds(cf, "MeasurementCNOTandReset"):
+                inside.append(x)
+    if inside:
+        ctx.fail("order.emission-first", m, inside[0],
+                 f"initialization appends a measure-and-reset (`{short(inside[0], 60)}`) while the emission loop is still running: its X correction targets "
+                 f"`measurement_assignment[j]`, which may be a photon that has not been emitted yet — that photon's first operation is then the "
+                 f"correction, and its emission CNOT comes after it (validate() does not notice)",
+                 func="EvolutionarySolver.initialization", construct="initialization: measure-and-reset inside the emission loop")
+    else:
+        ctx.ok("order.emission-first", m, lp, what="no measure-and-reset is appended before all emissions are in place")
+    # and the measure-and-reset block exists after it
+    after = [st for st in fn.body if st.lineno > lp.lineno and builds(st, "MeasurementCNOTandReset")]
+    if not after and not inside:
+        raise AnalysisError("initialization: the measure-and-reset block was not found")
